@@ -2,46 +2,25 @@ package props
 
 import (
 	"testing"
-	"time"
 
 	"github.com/meshplus/bitxhub-model/pb"
 
 	"verifharness/sim"
 )
 
-func TestSmokeNode(t *testing.T) {
-	dir := sim.NewDir("smoke")
-	defer removeAll(dir)
-	t0 := time.Now()
-	n := sim.OpenNode(dir, sim.NodeOpts{Audit: true})
-	t.Logf("node open: %v height=%d", time.Since(t0), n.Height())
-	w := sim.NewWorld(n)
-	a1, a2 := sim.KeyFor("chainA-admin"), sim.KeyFor("chainB-admin")
-	t0 = time.Now()
-	w.Fund("1000000000000000", a1, a2)
-	w.RegisterAppchain(a1, "chainA")
-	w.RegisterAppchain(a2, "chainB")
-	w.RegisterService(a1, "chainA", "svc1", true, "")
-	w.RegisterService(a2, "chainB", "svc2", true, "")
-	t.Logf("prelude: %v height=%d", time.Since(t0), n.Height())
-	from, to := sim.FullID(w.BxhID, "chainA", "svc1"), sim.FullID(w.BxhID, "chainB", "svc2")
-	proof := []byte("1")
-	req := &pb.IBTP{From: from, To: to, Index: 1, TimeoutHeight: 10, Proof: sim.ProofHash(proof)}
-	r := w.Block(w.IBTP(a1, req, proof))[0]
-	t.Logf("ibtp receipt ok=%v ret=%s", r.IsSuccess(), r.Ret)
-	st, e := w.Status(sim.IBTPID(from, to, 1))
-	t.Logf("status=%d %s", st, e)
-	rc := &pb.IBTP{From: from, To: to, Index: 1, Type: pb.IBTP_RECEIPT_SUCCESS, Proof: sim.ProofHash(proof)}
-	r = w.Block(w.IBTP(a2, rc, proof))[0]
-	t.Logf("receipt ok=%v ret=%s", r.IsSuccess(), r.Ret)
-	st, e = w.Status(sim.IBTPID(from, to, 1))
-	t.Logf("status=%d %s", st, e)
-	ic := w.Interchain(from)
-	t.Logf("interchain %v", ic)
-	t0 = time.Now()
-	n.Reopen()
-	t.Logf("reopen: %v height=%d", time.Since(t0), n.Height())
-	d := sim.DumpState(n.StateDB)
-	t.Logf("dump keys=%d total=%s", len(d.KV), d.TotalBalance())
-	n.Close()
+func TestSmokeProofWorld(t *testing.T) {
+	tpl := sim.ProofWorld(true)
+	w := tpl.Instantiate("smoke")
+	defer w.N.Destroy()
+	t.Logf("height=%d rule=%s", w.N.Height(), tpl.Data["rule"])
+	for _, c := range []string{"chainH", "chainW", "chainU", "chainL", "1357"} {
+		r := w.ViewBVM("0x0000000000000000000000000000000000000010", "GetAppchain", pb.String(c))
+		t.Logf("%s ok=%v %.200s", c, r.IsSuccess(), r.Ret)
+	}
+	from, to := sim.FullID(w.BxhID, "chainW", "s1"), sim.FullID(w.BxhID, "chainH", "s1")
+	for i, proof := range [][]byte{[]byte("1ok"), []byte("0no"), []byte("!trap")} {
+		ib := &pb.IBTP{From: from, To: to, Index: 1, Proof: sim.ProofHash(proof)}
+		r := w.Block(w.IBTP(sim.KeyFor("ca-chainW"), ib, proof))[0]
+		t.Logf("proof %d: ok=%v ret=%s", i, r.IsSuccess(), r.Ret)
+	}
 }
